@@ -28,7 +28,7 @@ Proof.
       let w2b := if okf then w2a else report EFlush w2a in
       let w3 := w_drop w2b wra in
       let roll' := reset_size_and_date w3 (rs_roll rs) path' in
-      let '(rc, w4) := cleanup_or_queue c w3 (rs_bg rs) (rs_cleanup rs) (ns_filter ns1) (ns_writes_direct ns1) in
+      let '(rc, w4) := cleanup_or_queue c w3 (rs_bg rs) (rs_cleanup rs) (ns_filter ns1) (if ns_writes_direct ns1 then Some path' else None) in
       let st' := Active (Some {| rs_naming := ns1; rs_roll := roll'; rs_cleanup := rs_cleanup rs; rs_bg := rs_bg rs |}) wr' path' in
       (match rc with Ok _ => Ok tt | Err => Err | Panic => Panic end, w4, st')
     | (Err, w2) => (Err, w2, Active (Some {| rs_naming := ns1; rs_roll := rs_roll rs; rs_cleanup := rs_cleanup rs; rs_bg := rs_bg rs |}) wr path)
